@@ -4,13 +4,13 @@ from .. import model
 from . import entry as E
 
 CLAIM = dict(
-    text="Coq theorems about an executable model of the generated entry point (Model/Entry.v: Signature.extract, ArgumentAnalyzer with its three error cases, generate_dispatch as a generator of a mini-AST, CPython's def/binding rules, an interpreter of the mini-AST, the arity/keyword filter and empty-tuple branch of MultiTypeMap), for unbounded signature sets and call shapes: for Python-valid signatures the analyzer accepts, the required positions form a prefix and the lists generate_dispatch walks are the positions in order (C03_required_prefix), so the generated def always compiles (C03_entry_compiles); for every bound call shape outside KF-02's class (a positional omitted together with a keyword that is keyword-only or names a positional beyond the first omitted one) the interpreted body forwards exactly the supplied positionals in order, exactly the supplied keywords, and looks up a key covering exactly the supplied arguments (C03_forward_partial); inside that class some supplied keyword is always dropped from the call and the key (C03_forward_outside: the class is exact -- larger than DESIGN.md's guess, the code also forwards keywords naming the leading positionals); every shape a registered method accepts under the documented keyword rules is bound by the generated def (C03_bind_accepts) and its key passes the arity/keyword filter of that method (C03_admit_partial). The full statement is refuted on the faithful model by the KF-02 and KF-03 witnesses (C03_refuted_kw, C03_refuted_zero). Tie to /repo on every run: (i) the generated source (linecache) is parsed into the mini-AST and compared with the model generator's output, and the public signature of the dispatcher with the model's reading of the def (translation validation); (ii) every call shape of every generated signature set (positional count x keyword subset, positionals passed by keyword, functions and OvldBase methods with self, uniform/differing names, positional-only markers) runs through the real function with identity-recording methods and per-method default sentinels, a proxy recording the lookup key and the forwarded call; compared with the model's prediction (key, forwarded call, selected method, what each parameter received, error kind) and with an independent oracle built on inspect.signature(...).bind, identity of results and of exceptions raised by bodies; CPython's binding rule as modelled is compared with inspect on every shape.",
-    note="Trusted: Coq kernel, extraction, OCaml driver, the hand-written model (validated by translation validation + behaviour correspondence on every run), CPython's def/binding semantics as modelled (validated against inspect.signature.bind), type resolution abstracted to a table (distinct priorities make the selection unambiguous). Tail-call return/raise of the generated body is observed (identity of result and exception), not proved. Parameter names colliding with the generator's own identifiers are outside the model (KF-30, reproduced on the implementation only). Partial: the full statement is false of the code (KF-02, KF-03).",
+    text="Coq theorems about an executable model of the generated entry point (Model/Entry.v: Signature.extract, ArgumentAnalyzer with its three error cases, generate_dispatch as a generator of a mini-AST, CPython's def/binding rules, an interpreter of the mini-AST, the arity/keyword filter and empty-tuple branch of MultiTypeMap), for unbounded signature sets and call shapes: for Python-valid signatures the analyzer accepts, the required positions form a prefix and the lists generate_dispatch walks are the positions in order (C03_required_prefix), so the generated def always compiles (C03_entry_compiles); for every bound call shape outside KF-31's class (a positional omitted together with a keyword that names a positional beyond the first omitted one; since the repair of KF-02 keyword-only arguments are kept by the early exits) the interpreted body forwards exactly the supplied positionals in order, exactly the supplied keywords, and looks up a key covering exactly the supplied arguments (C03_forward_partial); inside that class some supplied keyword is always dropped from the call and the key (C03_forward_outside: the class is exact); every shape a registered method accepts under the documented keyword rules is bound by the generated def (C03_bind_accepts) and, for every bound shape, its key passes the arity/keyword filter of that method (C03_admit). The full statement is refuted on the faithful model by the KF-31 and KF-03 witnesses (C03_refuted_hole, C03_refuted_zero); KF-02's witnesses are kept as must-pass replays. Tie to /repo on every run: (i) the generated source (linecache) is parsed into the mini-AST and compared with the model generator's output, and the public signature of the dispatcher with the model's reading of the def (translation validation); (ii) every call shape of every generated signature set (positional count x keyword subset, positionals passed by keyword, functions and OvldBase methods with self, uniform/differing names, positional-only markers) runs through the real function with identity-recording methods and per-method default sentinels, a proxy recording the lookup key and the forwarded call; compared with the model's prediction (key, forwarded call, selected method, what each parameter received, error kind) and with an independent oracle built on inspect.signature(...).bind, identity of results and of exceptions raised by bodies; CPython's binding rule as modelled is compared with inspect on every shape.",
+    note="Trusted: Coq kernel, extraction, OCaml driver, the hand-written model (validated by translation validation + behaviour correspondence on every run), CPython's def/binding semantics as modelled (validated against inspect.signature.bind), type resolution abstracted to a table (distinct priorities make the selection unambiguous). Tail-call return/raise of the generated body is observed (identity of result and exception), not proved. Parameter names colliding with the generator's own identifiers are outside the model (KF-30, reproduced on the implementation only). Partial: the full statement is false of the code (KF-31, KF-03).",
     technique="Coq proof (invariants of the analyzer, normal form of the generated AST, structural lemmas on binding and interpretation) + translation validation of the generated source + differential behaviour correspondence with identity-recording methods",
     design="6 C03")
 
 THEOREMS = ["C03_required_prefix", "C03_entry_compiles", "C03_forward_partial", "C03_forward_outside",
-            "C03_bind_accepts", "C03_admit_partial", "C03_refuted_kw", "C03_refuted_zero"]
+            "C03_bind_accepts", "C03_admit", "C03_refuted_hole", "C03_refuted_zero"]
 ASSUMPTIONS = [
     "signatures are valid Python defs without *args/**kwargs (ovld rejects those at registration) -- sig_wf, evaluated on every generated set",
     "parameter names are drawn from a pool disjoint from the identifiers the generated entry point uses itself (method, type, subtler_type, KWARGS, TARGS, OVLD, MISSING, ARG<n>); collisions are a separate defect (KF-30), outside the model",
@@ -18,7 +18,7 @@ ASSUMPTIONS = [
     "which method is selected is another component's job: every generated set carries pairwise distinct priorities and plain annotations (object, int, str, two user classes, type[A]); the per-slot type test enters the model as a table",
 ]
 
-KF02, KF03 = "KF-02", "KF-03"
+KF02, KF03, KF31 = "KF-02", "KF-03", "KF-31"
 
 # ------------------------------------------------------------------ generation
 POSNAMES = ["x", "y", "z", "w"]
@@ -257,6 +257,7 @@ class Stats:
         self.nontrivial = set()
         self.samples = []
         self.oracle_failures = 0
+        self.in_repaired_kf02_class = 0
 
 
 def check_case(ctx, case, mgen, mcalls, st, counter):
@@ -306,7 +307,7 @@ def check_case(ctx, case, mgen, mcalls, st, counter):
     # ---- (ii) behaviour
     strict = E.documented_strict(case)
     for ci, call in enumerate(case["calls"]):
-        mres, maccepts, dom_fwd, kf02, kf03, kwdoc, fwdok, wf = mcalls[ci]
+        mres, maccepts, dom_fwd, kf02, kf03, kwdoc, fwdok, wf, kf31 = mcalls[ci]
         st.evaluations += 1
         plain = E.run_call(b, call, counter, traced=False)
         tr = E.run_call(b, call, counter, traced=True)
@@ -340,10 +341,12 @@ def check_case(ctx, case, mgen, mcalls, st, counter):
         if mres[0] in (4, 5, 6) and bool(fwdok) != bool(dom_fwd):
             ctx.violation(f"extracted spec: fwd_ok = {fwdok} but dom_fwd = {dom_fwd} (contradicts C03_forward_partial / C03_forward_outside)", one_call_case(case, ci), kind="correspondence")
         fail = oracle(b, case, call, plain, strict)
+        if kf02 and not kf31:
+            st.in_repaired_kf02_class += 1      # shapes that failed before the repair of KF-02: they must pass now
         if fail is not None:
             st.oracle_failures += 1
-            if kf02:
-                ctx.known_hit(KF02, one_call_case(case, ci)); st.kf_hits[KF02] += 1
+            if kf31:
+                ctx.known_hit(KF31, one_call_case(case, ci)); st.kf_hits[KF31] += 1
             elif kf03:
                 ctx.known_hit(KF03, one_call_case(case, ci)); st.kf_hits[KF03] += 1
             else:
@@ -379,7 +382,7 @@ def run(ctx):
     t0 = time.time()
     quick = ctx.quick()
     # corpus first: the witnesses of the known findings and a few hand-written sets
-    corpus = [WIT_KF02, WIT_KF02_REQ, WIT_KF02_HOLE, WIT_KF03, WIT_KF03_KW]
+    corpus = [WIT_KF02, WIT_KF02_REQ, WIT_KF31, WIT_KF03, WIT_KF03_KW]
     run_batch(ctx, [{"methods": w["methods"], "calls": w["calls"]} for w in corpus], st, counter)
     n_sets = 300 if quick else 20000
     budget = 40 if quick else 600
@@ -435,6 +438,7 @@ def run(ctx):
         "exhaustive": False,
         "translation_validated_sets": st.tv_ok, "build_error_sets": dict(st.build_errors),
         "calls_in_proved_domain": st.in_domain, "oracle_failures_all_attributed": st.oracle_failures,
+        "calls_in_repaired_KF02_class_all_passing": st.in_repaired_kf02_class,
         "known_finding_hits": dict(st.kf_hits), "binding_rule_checks_vs_inspect": st.accepts_checked,
         "outcome_histogram": dict(st.outcomes), "positional_count_histogram": {str(k): v for k, v in sorted(st.by_k.items())},
         "keyword_count_histogram": {str(k): v for k, v in sorted(st.by_nkw.items())}, "set_features": dict(st.features),
@@ -515,12 +519,12 @@ def _w(methods, call):
     return {"methods": [{"self": False, "prio": i, "params": p} for i, p in enumerate(methods)], "calls": [call]}
 
 
-# KF-02: f(x: int, y: int = 7, *, k: int = 9); f(1, k=2) -> the method receives its own default for k
+# KF-02 (repaired): f(x: int, y: int = 7, *, k: int = 9); f(1, k=2) -> used to receive its own default for k
 WIT_KF02 = _w([[[1, "x", True, 1], [1, "y", False, 1], [2, "k", False, 1]]], {"pos": [0], "kw": [["k", 0]], "raise": False})
 # ... with k required: "No method"
 WIT_KF02_REQ = _w([[[1, "x", True, 1], [1, "y", False, 1], [2, "k", True, 1]]], {"pos": [0], "kw": [["k", 0]], "raise": False})
 # ... f(x: int, a: int = 1, /, y: int = 2); f(1, y=3): y is dropped
-WIT_KF02_HOLE = _w([[[0, "x", True, 1], [0, "u", False, 1], [1, "y", False, 1]]], {"pos": [0], "kw": [["y", 0]], "raise": False})
+WIT_KF31 = _w([[[0, "x", True, 1], [0, "u", False, 1], [1, "y", False, 1]]], {"pos": [0], "kw": [["y", 0]], "raise": False})
 # KF-03: f(x: int = 5); f() -> "No method"
 WIT_KF03 = _w([[[1, "x", False, 1]]], {"pos": [], "kw": [], "raise": False})
 # ... f(*, k: int = 3); f()
